@@ -301,7 +301,11 @@ func (s *sim) plan() {
 		}
 		r.Event("plan", "%s %s initiator=%v garbage=%d decoys=%v pkts=%d ignored=%d ref[early=%v late=%v near=%d wrongterm=%d wrongaad=%d]",
 			e.name, who, e.initiator, e.garbageLen, e.hsDecoys, len(e.pkts), ign, e.refEarlyKey, e.refLateGarbage, e.refNearTermMode, e.refWrongTerm, e.refWrongAAD)
-		r.Sig(fmt.Sprintf("%s:%s:g=%s:pc=%d:dec=%d", e.name, who, s.gClass[x], s.pktClass[x], min(len(e.hsDecoys), 3)))
+		gc := s.gClass[x]
+		if gc == "1" || gc == "15" || gc == "16" || gc == "17" || gc == "small" {
+			gc = "1-200"
+		}
+		r.Sig(fmt.Sprintf("%s:%s:g=%s:pc=%d:dec=%d", e.name, who, gc, s.pktClass[x], min(len(e.hsDecoys), 2)))
 		if e.garbageLen == 0 {
 			r.Probe("garbage_len_0")
 		}
